@@ -471,12 +471,33 @@ class G:
         return r_choice_fix(self.r, [t, t, t + ".sub", "system." + t, t + "_c", "REDACTED_" + t, "X_" + t + ".sub", "p.q_r_" + t])
 
     # ---------------------------------------------------------------- commands
-    def command(self):
+    def command(self, depth=0):
         r = self.r
         db, coll = self.dbname(), self.coll()
         self.ns = db + "." + coll
-        k = r.below(16)
+        k = r.below(18) if depth == 0 else r.below(15)
         tail = [("lsid", Obj([("id", Obj([("$uuid", "11111111-2222-3333-4444-555555555555")]))])), ("$db", db)]
+        if k == 16:
+            # explain: the explained operation, with its query predicate, sits one level down
+            verb, inner = self.command(depth + 1)
+            inner = Obj([(kk, vv) for kk, vv in inner if kk != "lsid"])
+            self.ns = db + "." + coll
+            return "explain", Obj([("explain", inner), ("verbosity", r.choice(["queryPlanner", "executionStats", "allPlansExecution"]))] + tail)
+        if k == 17:
+            # bulkWrite (MongoDB 8.0): one operation per element of ops, namespaces listed in nsInfo
+            ops = []
+            for _ in range(1 + r.below(3)):
+                w = r.below(3)
+                if w == 0:
+                    ops.append(Obj([("insert", Num("0")), ("document", Obj([("_id", Obj([("$oid", self.oid())]))] + [(self.field(), self.lit()) for _ in range(1 + r.below(2))]))]))
+                elif w == 1:
+                    u = Obj([("update", Num("0")), ("filter", self.filter()), ("updateMods", self.update_spec()), ("multi", r.chance(1, 2))])
+                    if r.chance(1, 3):
+                        u.set("arrayFilters", [Obj([("elem." + self.field(), self.cond(1))])])
+                    ops.append(u)
+                else:
+                    ops.append(Obj([("delete", Num("0")), ("filter", self.filter()), ("multi", False)]))
+            return "bulkWrite", Obj([("bulkWrite", Num("1")), ("ops", ops), ("nsInfo", [Obj([("ns", db + "." + coll)])]), ("ordered", True)] + [tail[0], ("$db", "admin")])
         if k < 4:
             c = Obj([("find", coll), ("filter", self.filter())])
             if r.chance(1, 2):
